@@ -768,3 +768,47 @@ Section Totality.
     - discriminate.
   Qed.
 End Totality.
+
+(* ---- the same with jitter, given enough draws ------------------------------------------------- *)
+Section TotalityJitter.
+  Context {F : Type} (fo : fops F) (OL : order_laws fo) (GL : grow_laws fo).
+
+  Lemma gen_loop_enough : forall n jit j stop factor a draws, (n <= length draws)%nat ->
+    gen_loop fo n jit j stop factor a draws <> None.
+  Proof.
+    induction n as [|n IH]; intros jit j stop factor a draws H; simpl; [discriminate|].
+    destruct jit.
+    - destruct draws as [|r ds]; [simpl in H; lia|].
+      simpl in H. specialize (IH true j stop factor (step fo stop factor a) ds).
+      destruct (gen_loop fo n true j stop factor (step fo stop factor a) ds); [discriminate|].
+      exfalso. apply IH; [lia|reflexivity].
+    - assert (n <= length draws)%nat by lia.
+      specialize (IH false j stop factor (step fo stop factor a) draws H0).
+      destruct (gen_loop fo n false j stop factor (step fo stop factor a) draws); [discriminate|].
+      exfalso. now apply IH.
+  Qed.
+
+  (* number of values the default count asks for (0 when the loop does not return a count) *)
+  Definition default_len (fuel : nat) (start stop factor : F) : nat :=
+    match default_count fo fuel stop factor start 1 with DCOk m => Z.to_nat m | _ => O end.
+
+  Lemma run_list_default_not_fuel_draws : forall start stop factor j take fuel draws,
+    valid fo start stop factor = true ->
+    default_count fo fuel stop factor start 1 <> DCFuel ->
+    (default_len fuel start stop factor <= length draws)%nat ->
+    o_end (run fo (mkP ApiList start stop CNone factor j take) fuel draws) <> EFuel.
+  Proof.
+    intros start stop factor j take fuel draws V D L.
+    unfold run. cbn [p_api p_start p_stop p_count p_factor p_jitter p_take].
+    rewrite (prepare_valid fo OL fuel start stop factor CNone j V).
+    unfold default_len in L.
+    destruct (default_count fo fuel stop factor start 1) as [m| |]; [| |congruence].
+    - unfold after_count. destruct (count_neg (NFin m)); [discriminate|].
+      destruct (jitter_valid fo j); [|discriminate].
+      unfold produce. cbn [p_start p_stop p_factor p_jitter].
+      pose proof (gen_loop_enough (Z.to_nat m) (negb (jitter_off fo j)) j stop factor start draws L) as G.
+      destruct (gen_loop fo (Z.to_nat m) (negb (jitter_off fo j)) j stop factor start draws);
+        [discriminate|congruence].
+    - discriminate.
+  Qed.
+End TotalityJitter.
